@@ -365,7 +365,7 @@ func CacheKey(c *Caches, v9 bool) string {
 				continue
 			}
 			for k, v := range sh.Templates {
-				items = append(items, fmt.Sprintf("%d/%d:%+v", si, k, v.Template))
+				items = append(items, fmt.Sprintf("%d/%v:%+v", si, k, v.Template))
 			}
 		}
 	} else {
@@ -374,10 +374,29 @@ func CacheKey(c *Caches, v9 bool) string {
 				continue
 			}
 			for k, v := range sh.Templates {
-				items = append(items, fmt.Sprintf("%d/%d:%+v", si, k, v.Template))
+				items = append(items, fmt.Sprintf("%d/%v:%+v", si, k, v.Template))
 			}
 		}
 	}
 	sort.Strings(items)
 	return fmt.Sprint(items)
+}
+
+// CacheEntries counts the templates held in the exported cache structure.
+func CacheEntries(c *Caches, v9 bool) int {
+	n := 0
+	if v9 {
+		for _, sh := range c.N {
+			if sh != nil {
+				n += len(sh.Templates)
+			}
+		}
+		return n
+	}
+	for _, sh := range c.I {
+		if sh != nil {
+			n += len(sh.Templates)
+		}
+	}
+	return n
 }
